@@ -3,19 +3,34 @@ package iterators
 // Range creates an Iterator that will
 // iterate numbers from a to b, including b.
 func Range(a, b int) Iterator {
-	return &ranger{pos: a - 1, end: b}
+	return newRanger(a, b)
 }
 
+// ranger counts from next up to and including last. It does not compute
+// values outside that interval, so bounds at the limits of int can not
+// overflow.
 type ranger struct {
-	pos int
-	end int
+	next int
+	last int
+	done bool
+}
+
+func newRanger(first, last int) *ranger {
+	return &ranger{next: first, last: last, done: first > last}
 }
 
 // Next returns the next number in the Range or nil
 func (r *ranger) Next() interface{} {
-	if r.pos < r.end {
-		r.pos++
-		return r.pos
+	if r.done {
+		return nil
 	}
-	return nil
+
+	v := r.next
+	if r.next == r.last {
+		r.done = true
+	} else {
+		r.next++
+	}
+
+	return v
 }
